@@ -1,5 +1,6 @@
 import ITree.Lemmas.KListHistory
 import ITree.Props.C01
+import ITree.Lemmas.CheckEquiv
 /-!
 # C13 — the sorted-vector variants give the same answers as the tree variants
 
@@ -130,6 +131,19 @@ theorem C13_list_handles (l : List (Ent V)) (i : Nat) (v : V) (hi : i < l.length
     LSt.setValueByIndex l i v = some (l.set i ((l[i]).setVal v)) ∧
     LSt.deleteByIndex l i = some (l.eraseIdx i) := by
   simp [LSt.valueByIndex, LSt.setValueByIndex, LSt.deleteByIndex, hi, Ent.setVal]
+
+/-- the executable checks the driver evaluates on every explored real list state are exactly the
+hypotheses of the theorems above -/
+theorem C13_checks_iff (l : List (Ent V)) (s : KL V) :
+    (sortedCheck l = true ↔ SortedE l) ∧ (s.invCheck = true ↔ s.Inv) := by
+  constructor
+  · simp only [sortedCheck, SortedE]; exact strictlyIncreasing_iff _
+  · simp only [KL.invCheck, KL.Inv, List.all_eq_true, decide_eq_true_eq]
+
+/-- a sorted buffer with a valid cached minimum is related to the reference content it denotes -/
+theorem C13_klist_rel_of_checks (s : KL V) (T : Int) (h1 : sortedCheck s.buf = true) (h2 : s.invCheck = true) :
+    KLRel s (live T s.buf) (some T) :=
+  ⟨(C13_checks_iff s.buf s).2.mp h2, (C13_checks_iff s.buf s).1.mp h1, rfl⟩
 
 /-! non-vacuity -/
 example : (((KL.new 100 : KL Nat).insert ⟨2, 5, 20⟩ 0).query .fle 3 (fun k => compare k 2)).2 = some 20 := by decide
